@@ -35,8 +35,16 @@ def showEvalMesh : Option (Except Err Mesh) → String
   | some (.error _) => "NONE"
   | none => "NONE"
 
+/-- count, last element and a rolling digest of a listing: lets the generators be compared at lengths where
+    printing every permutation would be too long (`gendig`) -/
+def digest (l : List NSeq) : String :=
+  let h := l.foldl (fun h p => p.foldl (fun h v => (h * 31 + v + 1) % 1000000007) ((h * 31) % 1000000007)) 7
+  toString l.length ++ " " ++ showSeq (l.getLast?.getD []) ++ " " ++ toString h
+
 def handle (op : String) (a : List String) : Option String :=
   match op, a with
+  | "gendig", ["upto", n] => some (digest (Model.upToLength (parseInt n)))
+  | "gendig", ["oflen", n] => some (digest (Model.ofLength (parseInt n)))
   | "oflen", [n] => some (showSeqs (Model.ofLength (parseInt n)))
   | "upto", [n] => some (showSeqs (Model.upToLength (parseInt n)))
   | "first", [k] => some (showExcept showSeqs (Model.first (parseInt k)))
